@@ -384,6 +384,23 @@ fn zero_report() -> Map<String, Value> {
     v.as_object().unwrap().clone()
 }
 
+fn zero_partial() -> Value {
+    json!({"has": false, "ok": true, "size": 0, "fps": 0, "cfps": [0, 0], "idx": 0, "cidx": [0, 0]})
+}
+
+/// The model crate's actions mutate in place: when an increase / decrease returns `Err`, this looks at
+/// the PARTIAL state it leaves behind (before the driver discards it): the position's funding snapshots
+/// against the market's indices for its own (side, collateral), and the real `pending_funding_fees`.
+fn partial_probe<const D: u8>(p: &mut TestPosition<u64, D>, m: &mut TestMarket<u64, D>) -> Value {
+    let ok = matches!(guarded(|| p.ops(m).pending_funding_fees()), Ok(Ok(_)));
+    let (fps, cfps) = if p.is_long { (&m.funding_amount_per_size.0, &m.claimable_funding_amount_per_size.0) }
+                      else { (&m.funding_amount_per_size.1, &m.claimable_funding_amount_per_size.1) };
+    let idx = if p.is_collateral_token_long { fps.long_amount } else { fps.short_amount };
+    json!({"has": p.size_in_usd > 0, "ok": ok, "size": p.size_in_usd, "fps": p.funding_fee_amount_per_size,
+           "cfps": [p.claimable_funding_fee_amount_per_size.0, p.claimable_funding_fee_amount_per_size.1],
+           "idx": idx, "cidx": [cfps.long_amount, cfps.short_amount]})
+}
+
 fn zero_funding() -> Value {
     json!({"has": false, "dt": 0, "L": 0, "S": 0, "ok": false, "rate": 0, "lp": false, "next": 0, "stored": 0})
 }
@@ -426,6 +443,7 @@ struct Outcome {
     r: Map<String, Value>,
     f: Value,
     cfg_override: Option<Value>,
+    pp: Value,
 }
 
 /// (dt, L, S, Ok((rate, longs_pay, next))) computed by the real `next_funding_factor_per_second`
@@ -484,7 +502,7 @@ impl<const D: u8> World<D> {
         self.m.callbacks.clear();
         let snap_m = self.m.clone();
         let snap_ps = self.ps;
-        let mut out = Outcome { ok: false, panic: false, err: String::new(), r: zero_report(), f: zero_funding(), cfg_override: None };
+        let mut out = Outcome { ok: false, panic: false, err: String::new(), r: zero_report(), f: zero_funding(), cfg_override: None, pp: zero_partial() };
         let mut pos_idx = 0usize;
 
         macro_rules! settle {
@@ -551,7 +569,10 @@ impl<const D: u8> World<D> {
                         self.ps[i] = p;
                         Ok(Ok(rep))
                     }
-                    Ok((_, Err(e))) => Ok(Err(e)),
+                    Ok((mut p, Err(e))) => {
+                        out.pp = partial_probe(&mut p, &mut self.m);
+                        Ok(Err(e))
+                    }
                     Err(()) => Err(()),
                 };
                 settle!(res, |r: &mut Map<String, Value>, rep: gmsol_model::action::increase_position::IncreasePositionReport<u64, i64>| {
@@ -595,7 +616,10 @@ impl<const D: u8> World<D> {
                         self.ps[i] = p;
                         Ok(Ok(rep))
                     }
-                    Ok((_, Err(e))) => Ok(Err(e)),
+                    Ok((mut p, Err(e))) => {
+                        out.pp = partial_probe(&mut p, &mut self.m);
+                        Ok(Err(e))
+                    }
                     Err(()) => Err(()),
                 };
                 settle!(res, |r: &mut Map<String, Value>, (rep, full): (Box<gmsol_model::action::decrease_position::DecreasePositionReport<u64, i64>>, bool)| {
@@ -697,7 +721,7 @@ impl<const D: u8> World<D> {
             "m": self.market_json(), "ps": self.positions_json(),
             "r": Value::Object(out.r), "f": out.f, "ncb": ncb, "cbs": cbs.join(";"),
             "c": out.cfg_override.unwrap_or_else(|| self.cfg.json()),
-            "b": self.borrowing_probe(),
+            "b": self.borrowing_probe(), "pp": out.pp,
         });
         let _ = pos_idx;
         self.fresh = false;
